@@ -191,7 +191,7 @@ def confirm(ctx, fam, binary, script, want=None):
         for _ in range(repeat):
             for a in script:
                 f.write(json.dumps(a) + "\n")
-    drive(ctx, binary, fam.sub, sp, tp, timeout=300)
+    drive(ctx, binary, fam.sub, sp, tp, timeout=300, extra=("-procs", "1") if any(a.get("a") == "overlap" for a in script) else ())
     lines = read_lines(tp)
     out = []
     for x in lines:
@@ -205,7 +205,19 @@ ARGS = ("a", "cfg", "id", "mac", "ip", "l", "k", "op", "es", "sm", "si", "ti", "
 
 
 def script_of(recs):
-    return [{k: e[k] for k in ARGS if k in e} for e in recs]
+    """The replayable script of a recorded behaviour; two lines written by an `overlap` action become that action again."""
+    out, skip = [], False
+    for e in recs:
+        if skip:
+            skip = False
+            continue
+        a = {k: e[k] for k in ARGS if k in e}
+        if "ovb" in e:
+            out.append({"a": "overlap", "first": a, "second": {k: e["ovb"][k] for k in ARGS if k in e["ovb"]}})
+            skip = True
+        else:
+            out.append(a)
+    return out
 
 
 def check_trace(ctx, fam, binary, trace_path, label, stats):
@@ -415,8 +427,11 @@ def arp_random_script(rng, length):
             sm = rng.choice(macs + [rng.choice(ARP_MACS)])
             es = sm if rng.random() < 0.65 else rng.choice(macs + [rng.choice(ARP_MACS)])     # a relay forwards another station's packet
             out.append({"a": "recv", "op": op, "es": es, "sm": sm, "si": si, "ti": ti})
-        elif x < 0.97:
+        elif x < 0.94:
             out.append({"a": "offer", "mac": m, "ip": rng.choice(ARP_IPS + ["noip", "l1"])})
+        elif x < 0.985:
+            # the application's capture flag is independent of the hunt list (also for MACs never hunted)
+            out.append({"a": rng.choice(["capture", "capture", "release"]), "mac": rng.choice(macs + [rng.choice(ARP_MACS)])})
         else:
             out.append({"a": "close"})
     return out
@@ -435,6 +450,34 @@ def stress_script(rng, macs, ips, behaviours, rounds, n):
             h.append({"a": "step", "k": r})
             h.append({"a": "step", "k": r})
         out.append(h)
+    return out
+
+
+def overlap_script():
+    """Send-overlap stage: for every ordered pair of send paths of the ARP handler (loop announcement, restoring
+    request, immediate spoof reply, probe reject) the first one's write is held inside the connection while the second
+    one runs; the frame that finally leaves must still be the frame the first action built."""
+    paths = ["ann", "restore", "reply", "reject"]
+    out = []
+    for pa in paths:
+        for pb in paths:
+            h = [{"a": "start", "mac": "m1", "ip": "a1"}, {"a": "start", "mac": "m2", "ip": "a2"}, {"a": "start", "mac": "m3", "ip": "a3"},
+                 {"a": "offer", "mac": "m4", "ip": "a4"}]
+            acts = []
+            for which, kind in ((1, pa), (2, pb)):
+                if kind == "ann":
+                    h.append({"a": "check", "l": which})
+                    acts.append({"a": "act", "l": which})
+                elif kind == "restore":
+                    h += [{"a": "stop", "mac": "m%d" % which}, {"a": "check", "l": which}]
+                    acts.append({"a": "act", "l": which})
+                elif kind == "reply":
+                    acts.append({"a": "recv", "op": 1, "es": "m3", "sm": "m3", "si": "a3", "ti": "routerip"})
+                else:
+                    acts.append({"a": "recv", "op": 1, "es": "m4", "sm": "m4", "si": "zero", "ti": "a%d" % which})
+            h.append({"a": "overlap", "first": acts[0], "second": acts[1]})
+            h += [{"a": "step", "k": 0}, {"a": "step", "k": 1}, {"a": "step", "k": 2}]
+            out.append(h)
     return out
 
 
@@ -490,7 +533,8 @@ def run_c13(ctx):
 
     behaviours = [("tlc-counterexamples", kf_hist)]
     sim_depth, sim_num = (14, 600) if quick else (22, 3000)
-    hs = simulate(ctx, fam, base, "sim_depth%d" % sim_depth, sim_depth, sim_num, MaxLoops=3, RecvOps="{1}", RecvSI="{a1}", RecvTI="{routerip, a2}")
+    hs = simulate(ctx, fam, base, "sim_depth%d" % sim_depth, sim_depth, sim_num, MaxLoops=3, RecvOps="{1}", RecvSI="{a1}", RecvTI="{routerip, a2}",
+                  CaptureMACs="{m1, m3}")
     rng.shuffle(hs)
     behaviours.append(("tlc-walks", hs[:sim_num]))
     hs = simulate(ctx, fam, probe, "sim_probe", 10, 100 if quick else 600, MaxLoops=2)
@@ -501,6 +545,8 @@ def run_c13(ctx):
     # one concurrent-API stage: 16 overlapping StartHunt calls per round
     behaviours.append(("stress", stress_script(rng, ARP_MACS[:3], ["a1", "a2"], 10 if quick else 40, 30, 16)))
 
+    # one send-overlap stage on a single P (sync.Pool then hands a returned buffer straight to the next sender)
+    behaviours.append(("overlap", overlap_script() * (1 if quick else 4)))
     stats, runs, nbeh, total, samples, drift = {}, [], 0, 0, [], []
     distinct = set()
     kinds = {}
@@ -511,7 +557,8 @@ def run_c13(ctx):
         sp = os.path.join(ctx.scratch, label + ".script")
         tp = os.path.join(ctx.scratch, label + ".trace")
         write_script(sp, hs)
-        st = drive(ctx, binary, "arp", sp, tp, frames=(frames_path + "." + label) if frames_path else None)
+        st = drive(ctx, binary, "arp", sp, tp, frames=(frames_path + "." + label) if frames_path else None,
+                   extra=("-procs", "1") if label == "overlap" else ())
         arp_kinds(tp, kinds)
         res = check_trace(ctx, fam, binary, tp, label, stats)
         res.update(st)
@@ -947,8 +994,10 @@ def ndp_random_script(rng, length):
             src, rmac = rng.choice(routers)
             kind = rng.choice(["ok"] * 8 + ["badopts", "nohost"])
             out.append({"a": "ra", "src": src, "rmac": rmac, "kind": kind})
-        elif x < 0.97:
+        elif x < 0.94:
             out.append({"a": "other", "kind": rng.choice(["ns-lla", "ns-gua", "na", "rs", "echo"])})
+        elif x < 0.97:
+            out.append({"a": rng.choice(["capture", "capture", "release"]), "mac": rng.choice(macs + [rng.choice(NDP_MACS)])})
         elif rng.random() < 0.5:
             out.append({"a": "close"})
             closed = True
@@ -993,7 +1042,7 @@ def run_c14(ctx):
     bad.sort(key=lambda b: len(b["hist"]))
     behaviours = [("tlc-counterexamples", [b["hist"] for b in bad[:40 if quick else 200]])]
     sim_depth, sim_num = (16, 600) if quick else (24, 3000)
-    hs = simulate(ctx, fam, base, "sim_depth%d" % sim_depth, sim_depth, sim_num, MaxLoops=3)
+    hs = simulate(ctx, fam, base, "sim_depth%d" % sim_depth, sim_depth, sim_num, MaxLoops=3, CaptureMACs="{m1, m2}")
     rng.shuffle(hs)
     behaviours.append(("tlc-walks", hs[:sim_num]))
     n, ln = (300, 60) if quick else (1500, 80)
